@@ -337,6 +337,11 @@ def run(ctx, which):
         "hashed-probe")
     for i in range(0, len(cases), 20000):
         run_cases(ctx, world, cases[i:i + 20000], which)
+    if which == "C08":
+        jsel = cases if ctx.thorough() else \
+            [c for c in cases if c.stream != "random"] + \
+            [c for c in cases if c.stream == "random"][:400]
+        java_cross(ctx, world, jsel)
 
     # 6. glue: string length and float32 rounding against Lean's own
     lines, meta = [], []
@@ -372,6 +377,95 @@ def run(ctx, which):
                                       % (b, pb, lb))
     ctx.extra["node_table"] = "%d attached, %d detached" % (
         len(world.attached), len(world.detached))
+
+
+def java_supported(t):
+    name, kids = t
+    if name in ("Addr", "double"):
+        return False
+    if name == "tuple" and not 1 <= len(kids) <= 5:
+        return False
+    if name == "variant" and len(kids) not in (2, 3, 11):
+        return False
+    return all(java_supported(k) for k in kids)
+
+
+def nodes_as_uuids(world, toks):
+    """Java has no node objects: a node travels as its UUID"""
+    out = []
+    i = 0
+    while i < len(toks):
+        if toks[i] == "n":
+            out += ["u", world.nodes[int(toks[i + 1])].uuid.bytes.hex()]
+            i += 2
+        else:
+            out.append(toks[i])
+            i += 1
+    return out
+
+
+def java_cross(ctx, world, cases):
+    """C08: the repository's Java codec decodes this API's bytes to the same
+    value, and this API decodes the Java codec's bytes to the same value."""
+    import java_cross as jx
+    if not jx.available(rebuild=True):
+        ctx.extra["java_cross"] = "unavailable: " + jx.why_unavailable()[:200]
+        if ctx.thorough():
+            raise core.HarnessError("Java cross-check unavailable: "
+                                    + jx.why_unavailable()[:300])
+        return
+    gtirb = world.gtirb
+    lookup = world.ir.get_by_uuid
+    sel = [c for c in cases if java_supported(c.t) and c.impl_bytes is not None
+           and c.stream != "hashed-probe"]
+    lines = []
+    for c in sel:
+        lines.append(jx.dec_line(c.name, c.impl_bytes))
+        lines.append(jx.enc_line(c.name, nodes_as_uuids(world, c.toks)))
+    out = jx.run(lines)
+    n_ok = 0
+    for i, c in enumerate(sel):
+        d, e = out[2 * i], out[2 * i + 1]
+        ctx.evaluations += 1
+        replay = {"type": c.name, "value_tokens": " ".join(c.toks),
+                  "impl_bytes": c.impl_bytes.hex(), "java_dec": d[:300],
+                  "java_enc": e[:300]}
+        want = cc.nan_normalise(cc.canon(nodes_as_uuids(world, c.toks)))
+        if d == "unsupported" or e == "unsupported":
+            ctx.count("java:unsupported")
+            continue
+        if not d.startswith("ok "):
+            ctx.report({"kind": "java-decode", "head": c.t[0]}, replay,
+                       "the Java codec cannot decode this API's bytes for "
+                       "%s: %s" % (c.name, d))
+            continue
+        parts = d.split(" ")
+        got = cc.nan_normalise(cc.canon(parts[2:]))
+        if int(parts[1]) != len(c.impl_bytes) or got != want:
+            ctx.report({"kind": "java-decode", "head": c.t[0]}, replay,
+                       "the Java codec decodes this API's bytes for %s to "
+                       "another value" % c.name)
+            continue
+        if not e.startswith("ok "):
+            ctx.report({"kind": "java-encode", "head": c.t[0]}, replay,
+                       "the Java codec cannot encode the value for %s: %s"
+                       % (c.name, e))
+            continue
+        jb = jx.unhex(e[3:])
+        try:
+            v = cc.impl_decode(gtirb, c.name, jb, lookup)
+            back = cc.nan_normalise(cc.canon(nodes_as_uuids(
+                world, cc.to_tokens(world, c.t, v))))
+        except (Exception, core.ImplTimeout) as ex:   # noqa
+            back = "exc:" + type(ex).__name__
+        if back != want:
+            ctx.report({"kind": "java-bytes-decode", "head": c.t[0]}, replay,
+                       "bytes produced by the Java codec for %s decode to "
+                       "another value here" % c.name)
+            continue
+        n_ok += 1
+    ctx.count("java:cross-decoded", n_ok)
+    ctx.extra["java_cross"] = "%d cases cross-decoded both ways" % n_ok
 
 
 def replay(ctx, data, which):
